@@ -52,7 +52,7 @@ def replay(body):
     from . import sched
     sc = body["scenario"]
     progs = [[tuple(bytes.fromhex(x) if isinstance(x, str) and i == 2 and c[0] in ("send", "close", "server_close") else x for i, x in enumerate(c)) for c in p] for p in sc["programs"]]
-    out = sched.run_schedule(progs, sc["schedule"], sc["compression"])
+    out = sched.run_schedule(progs, sc["schedule"], sc["compression"], lines=bool(sc.get("lines")))
     c11, c12 = conc.judge(progs, out, sc["compression"])
     print("wire:", [(t, b.hex()[:40]) for t, b in out["wire"]], "results:", out["results"])
     print("REPLAY:", ("VIOLATION reproduced: %s" % c11[0]) if c11 else "property holds on this schedule")
